@@ -129,7 +129,7 @@ def build(targets: list[str] | None = None) -> BuildResult:
     with open(os.path.join(VERIF, ".lock", "build.lock"), "w") as lk:
         fcntl.flock(lk, fcntl.LOCK_EX)
         env = dict(os.environ, PYTHONHASHSEED="0", VERIF_REPO=REPO, PYTHONPATH=REPO)
-        for g in ("tables.py", "formats.py"):
+        for g in ("tables.py", "formats.py", "commands.py"):
             rc, out = _run([PY, os.path.join(VERIF, "gen", g)], env=env, timeout=120)
             if rc != 0:
                 r.gen_ok = False
